@@ -1064,6 +1064,31 @@ func runEngineAPICase(r *rng, caseID string, o apiOpts) map[string]any {
 		}
 		v.EqualsDirect = sameAPIOutcome(v.Result, bl)
 	}
+	// the context is loaded (relative root) while the process is in one working directory and parsed / run while it is in
+	// another one: the context directory is the one the files were loaded from, wherever the process has moved to since
+	{
+		v := &apiVariant{Name: "rel_loaded_then_chdir", API: "context", Cwd: "parent->other", RootGiven: "ctx", FileName: "workflow.yaml",
+			Keys: map[string]string{"workflow.yaml": digest([]byte(texts[t.RootFile]))}, Disk: "tree", Baseline: ctxBaseline}
+		var fc loadfile.FileCache
+		var ferr error
+		_ = withCwd(cwdOf["parent"], func() {
+			v.RootAbs, _ = filepath.Abs(v.RootGiven)
+			v.RootClass = rootClass(v.RootGiven)
+			fc, ferr = loadfile.NewFileCacheUsingContext(v.RootGiven, map[string]string{"workflow.yaml": "workflow.yaml"})
+			if ferr == nil {
+				ferr = fc.LoadContext()
+			}
+		})
+		_ = withCwd(cwdOf["other"], func() {
+			v.Result, v.ExitCode = runEngine(beh, func() (loadfile.FileCache, error) { return fc, ferr }, v.FileName, input, v.Split)
+		})
+		bl := direct
+		if ctxBaseline == "direct_disk" {
+			bl = directDisk
+		}
+		v.EqualsDirect = sameAPIOutcome(v.Result, bl)
+		variants = append(variants, v)
+	}
 	out["variants"] = variants
 	out["merge"] = mergeProbe(r, ctxDir, t, texts)
 	return out
